@@ -633,6 +633,23 @@ def flags_of(info):
 class C07(Base):
     prop = "C07"
 
+    def on_reset(self, subj, obs, info):
+        """An unseeded reset() has no business with NumPy's global generator:
+        re-seeding it there would make every later episode replay the same
+        draws (success frequencies of 0 or 1 instead of p)."""
+        acc = self.acc
+        acc.evaluations += 1
+        acc.count("resets_checked_for_rng_use")
+        if getattr(subj, "reset_touched_rng", False) and \
+                not subj.reset_was_seeded:
+            acc.violation("reset_disturbs_global_rng",
+                          "reset_disturbs_global_rng",
+                          "reset() without a seed changed the state of "
+                          "NumPy's global RandomState",
+                          {"kind": "dyn", "spec": subj.spec.canonical(),
+                           "route": subj.route, "modes": subj.modes,
+                           "hist": [], "op": ["reset"]})
+
     def single(self, T):
         """Checks that apply to one transition."""
         acc = self.acc
